@@ -16,7 +16,7 @@ import ast
 import re
 
 from sa.model import AnalysisError, norm
-from sa.patheval import Interp, Native, Obj, Sym, Top, ModRef, UnknownMethod
+from sa.patheval import Interp, Native, Obj, Sym, Top, ModRef, UnknownMethod, Raise
 from sa.report import RuleResult
 
 FMT = re.compile(r'^(uintbe|uint|intbe|int|bool|bin|bytes)(?::(\d+))?(?:=(.*))?$')
@@ -40,6 +40,12 @@ class Stream(Native):
 
     def call_method(self, name, args, kwargs, interp, frame, node):
         if name == 'read':
+            p0 = parse(args[0]) if args else None
+            if p0 and p0[0] in ('uint', 'uintbe', 'int', 'intbe') and p0[1] == 0:
+                # bitstring cannot interpret a zero-length bitstring as an integer: ValueError, not a bitstring.Error (trusted-base
+                # fact, confirmed by experiment: read('uint:0') -> ValueError)
+                interp.event('read-zero-length-integer', args[0])
+                raise Raise('ValueError', node, interp.where(node, frame))
             interp.event('read', args[0] if args else None)
             self.k += 1
             if self.k <= len(self.script):
@@ -56,6 +62,11 @@ class Stream(Native):
 
     def aug_assign(self, op, value, interp, frame, node):
         if op is ast.Add:
+            p0 = parse(value) if isinstance(value, str) else None
+            if p0 and p0[0] in ('uint', 'uintbe', 'int', 'intbe') and p0[1] == 0:
+                # (bitstring: "A non-zero length must be specified" - ValueError)
+                interp.event('write-zero-length-integer', value)
+                raise Raise('ValueError', node, interp.where(node, frame))
             interp.event('write', value)
         else:
             interp.event('streamop', op.__name__, value)
@@ -195,6 +206,22 @@ def rule_r1(repo, tier):
                 rr.fail('%s.write_uint' % W, fi.where, 'write_uint(%d, %d) appends %s (expected one unsigned field of %d bits with value %d)' % (v, n, wr, n, v),
                         witness={'nbits': n, 'value': v})
         # sign-magnitude
+        if n == 1:
+            # a signed field of one bit is a sign bit with an empty magnitude: the only value is 0; reader and writer must get by
+            # without asking bitstring for an integer of zero bits
+            for bit in (1, 0):
+                fi, res = call(repo, R, 'read_int', [1], script=[bit])
+                for r in res:
+                    rd = [parse(e[1]) for e in r.events if e[0] == 'read']
+                    if not r.ok or len(rd) != 1 or not one_bit(rd[0]) or r.value not in (0, -0):
+                        rr.fail('%s.read_int:width-1' % R, fi.where, 'read_int(1) with the bit %d: %s after reading %s (expected the value 0 after exactly one bit)' % (
+                            bit, 'raises ' + r.exc.cls if not r.ok else 'returns %r' % (r.value,), [e[1] for e in r.events if e[0] == 'read']), witness={'nbits': 1})
+            fi, res = call(repo, W, 'write_int', [0, 1])
+            for r in res:
+                wr = [parse(e[1]) if isinstance(e[1], str) else None for e in r.events if e[0] == 'write']
+                if not r.ok or len(wr) != 1 or not one_bit(wr[0]):
+                    rr.fail('%s.write_int:width-1' % W, fi.where, 'write_int(0, 1): %s after appending %s (expected exactly one bit)' % (
+                        'raises ' + r.exc.cls if not r.ok else 'returns', [e[1] for e in r.events if e[0] == 'write']), witness={'nbits': 1})
         if n >= 2:
             outs = {}
             for bit in (1, 0):
